@@ -15,3 +15,11 @@ def finish_transfer_case(path):
 def transfer_weight(d):
     nl = len(d["gf"][0]) if d["gf"] else 1
     return len(d["gf"]) * nl * nl + 40 * d["ngf"] + 2000
+
+
+def finish_element_case(path):
+    """read a dump written by harness/c15_element.cpp; flag whether TLC can evaluate the cell volumes in 32-bit integers"""
+    with open(path) as f:
+        d = json.loads(f.readline())
+    d["geo"] = bool(d["dyadic"]) and vmeshlib.geo_exact(d)
+    return d
